@@ -68,7 +68,15 @@ var vKindUniverse = []string{"k1", "k2", "k3"}
 func vParseMember(tok string, selfHost string) *Member {
 	// <id>[:kinds joined by +]   host = h<id>:1 (self: engine address)
 	parts := strings.SplitN(tok, ":", 2)
+	alt := ""
+	if i := strings.Index(parts[0], "@"); i >= 0 { // <id>@<n>: the same member id seen at another address (h<id>:<n>)
+		alt = parts[0][i+1:]
+		parts[0] = parts[0][:i]
+	}
 	m := &Member{ID: parts[0], Host: "h" + parts[0] + ":1", Region: "default"}
+	if alt != "" {
+		m.Host = "h" + parts[0] + ":" + alt
+	}
 	switch parts[0] {
 	case "A":
 		m.Host = selfHost
@@ -126,7 +134,7 @@ func runMembersHistory(t testing.TB, selfKinds []string, snaps [][]string) strin
 	if err != nil {
 		t.Fatal(err)
 	}
-	c, err := New(NewConfig().WithEngine(e).WithID("A").WithProvider(vStubProvider).WithRequestTimeout(3 * time.Second))
+	c, err := New(NewConfig().WithEngine(e).WithID("A").WithProvider(vStubProvider).WithRequestTimeout(700 * time.Millisecond))
 	if err != nil {
 		t.Fatal(err)
 	}
@@ -139,11 +147,17 @@ func runMembersHistory(t testing.TB, selfKinds []string, snaps [][]string) strin
 	c.Start()
 	var out []string
 	for si, snap := range snaps {
-		var ms []*Member
-		for _, tok := range snap {
-			ms = append(ms, vParseMember(tok, e.Address()))
+		if len(snap) == 1 && strings.HasPrefix(snap[0], "!act") {
+			// not a snapshot: an activation attempt. Remote members cannot be reached here (the remoter swallows the
+			// request, which times out); whatever happens to the activation, the membership view must not move.
+			c.Activate(snap[0][4:], NewActivationConfig().WithID("x"+strconv.Itoa(si)))
+		} else {
+			var ms []*Member
+			for _, tok := range snap {
+				ms = append(ms, vParseMember(tok, e.Address()))
+			}
+			e.Send(c.PID(), &Members{Members: ms})
 		}
-		e.Send(c.PID(), &Members{Members: ms})
 		view := vMemberIDs(c.Members()) // a request: handled after the snapshot
 		var has []string
 		for _, k := range vKindUniverse {
@@ -216,7 +230,7 @@ func TestVerifMembers(t *testing.T) {
 		emit(fmt.Sprintf("corpus%d", i), sk, snaps)
 	}
 	r := vgen.NewRng(vgen.Seed())
-	n := vgen.Scale(250, 4000)
+	n := vgen.Scale(1000, 6000)
 	others := []string{"B", "C", "D", "E", "F", "G"}
 	for i := 0; i < n; i++ {
 		rr := r.Fork()
@@ -246,7 +260,11 @@ func TestVerifMembers(t *testing.T) {
 			snap := []string{"A:" + kindsOf["A"]}
 			for _, o := range others {
 				if rr.Chance(1, 2) {
-					snap = append(snap, o+":"+kindsOf[o])
+					tok := o
+					if rr.Chance(1, 6) { // the member id shows up at another address (a node restarted on a new port)
+						tok = o + "@2"
+					}
+					snap = append(snap, tok+":"+kindsOf[o])
 					if rr.Chance(1, 5) { // duplicate entry
 						snap = append(snap, o+":"+kindsOf[o])
 					}
@@ -259,6 +277,12 @@ func TestVerifMembers(t *testing.T) {
 			}
 			if rr.Chance(1, 6) && s > 0 {
 				snap = append([]string{}, snaps[s-1]...) // repeated snapshot
+				if len(snap) == 1 && strings.HasPrefix(snap[0], "!act") {
+					snap = []string{"A:" + kindsOf["A"]}
+				}
+			}
+			if rr.Chance(1, 30) && s > 0 { // an activation attempt between two snapshots (costs a request timeout)
+				snaps = append(snaps, []string{"!act" + vgen.Pick(rr, vKindUniverse)})
 			}
 			snaps = append(snaps, snap)
 		}
@@ -342,6 +366,30 @@ func runProviderHistory(t testing.TB, ops []string) string {
 			e.Send(pid, &Members{Members: ms})
 		case "lv":
 			e.Send(pid, memberLeave{ListenAddr: "h" + arg + ":1"})
+		case "hu": // a handshake is still QUEUED at the busy provider when the unreachable report for that peer is published
+			hold := vHold{make(chan struct{}), make(chan struct{})}
+			e.Send(pid, hold)
+			<-hold.ack // the provider is inside the hold now
+			e.SendWithSender(pid, &Handshake{Member: member(arg)}, actor.NewPID("h"+arg+":1", "provider/"+arg))
+			e.BroadcastEvent(actor.RemoteUnreachableEvent{ListenAddr: "h" + arg + ":1"})
+			mk := make(chan struct{})
+			flush.set(mk)
+			e.BroadcastEvent(vMarker{})
+			select {
+			case <-mk:
+			case <-time.After(3 * time.Second):
+				out = append(out, "NOFLUSH")
+			}
+			if cur != nil && cur.eventSubPID != nil {
+				sy := vSync{make(chan struct{})}
+				e.Send(cur.eventSubPID, sy)
+				select {
+				case <-sy.ch:
+				case <-time.After(3 * time.Second):
+					out = append(out, "NOCHILDSYNC")
+				}
+			}
+			close(hold.ch) // now the provider handles the handshake, then the report: the peer joins and leaves again
 		case "ur": // the report as the remote publishes it: RemoteUnreachableEvent on the event stream -> the provider's "event" child -> memberLeave
 			e.BroadcastEvent(actor.RemoteUnreachableEvent{ListenAddr: "h" + arg + ":1"})
 			// flush hop 1 (event stream actor): a marker event reaches a synchronous subscriber after it
@@ -394,6 +442,9 @@ func vMakeNilMaps(v any) {
 
 type vMarker struct{}
 
+// vHold parks the provider inside Receive until released.
+type vHold struct{ ack, ch chan struct{} }
+
 // vFlush is a synchronous subscriber of the event stream: Send runs on the event stream actor's goroutine.
 type vFlush struct {
 	pid *actor.PID
@@ -444,6 +495,9 @@ func (w vWrap) Receive(c *actor.Context) {
 		w.c.engine.Subscribe(s.eventSubPID)
 	case vSync:
 		close(m.ch)
+	case vHold:
+		close(m.ack)
+		<-m.ch
 	default:
 		w.s.Receive(c)
 	}
@@ -468,7 +522,7 @@ func TestVerifProvider(t *testing.T) {
 		emit(fmt.Sprintf("corpus%d", i), strings.Split(s, ","))
 	}
 	r := vgen.NewRng(vgen.Seed())
-	n := vgen.Scale(300, 5000)
+	n := vgen.Scale(1200, 8000)
 	peers := []string{"B", "C", "D", "E"}
 	for i := 0; i < n; i++ {
 		rr := r.Fork()
@@ -486,8 +540,10 @@ func TestVerifProvider(t *testing.T) {
 					}
 				}
 				ops = append(ops, "ms"+strings.Join(ids, "+"))
-			case c < 8:
+			case c < 7:
 				ops = append(ops, "ur"+vgen.Pick(rr, append([]string{"Z"}, peers...)))
+			case c < 8:
+				ops = append(ops, "hu"+vgen.Pick(rr, peers))
 			default:
 				ops = append(ops, "lv"+vgen.Pick(rr, append([]string{"Z"}, peers...)))
 			}
